@@ -9,14 +9,15 @@
    Good: rt  - every value is writable, w = SerEnc(p,v), and the Deserializer gave back v, no error, off = Len(w)
          wr  - some value is indeed not writable (length outside min/max/prefix range)
          mut - Done() reported what Run(p,s) demands (values and consumed bytes, or an error of an allowed
-               class), off <= Len(s), allocation <= 64 KiB + 16*Len(s), iterations <= Len(s) + 1.
+               class), off <= Len(s), allocation <= 64 KiB + 16*Len(s) (+ 256*Len(s) with object operations), iterations <= Len(s) + 1.
    A timestamp beyond MaxInt64 ns has no demanded reading (TimeWild).                                    *)
 EXTENDS Deser, Json, SequencesExt
 
 VARIABLE l
 Log == ndJsonDeserialize("records.ndjson")
 
-AllocBound(n) == 65536 + 16 * n
+\* (object operations allocate a Serializable per object that is in the input)
+AllocBound(p, n) == 65536 + 16 * n + (IF \E i \in 1..Len(p) : p[i].op \in {"Obj", "Payload", "Objs"} THEN 256 * n ELSE 0)
 Writable(p, v) == Len(v) = Len(p) /\ \A i \in 1..Len(p) : EncOK(p[i], v[i])
 \* timestamps: a raw value above MaxInt64 ns has no demanded reading
 TimeWild(op, x) == op.op = "Time" /\ x[1] >= 128
@@ -37,7 +38,7 @@ Good(r) ==
                       /\ (o.ok => Match(r.p, r.got.vals, o.vals) /\ r.got.off = o.off)
                       /\ (~o.ok => r.got.err \in o.errs)
                       /\ r.got.off <= Len(r.s)
-                      /\ r.alloc <= AllocBound(Len(r.s))
+                      /\ r.alloc <= AllocBound(r.p, Len(r.s))
                       /\ r.iters <= Len(r.s) + 1
 
 Report(k) == PrintT(<<"BAD", ToJson([l |-> k, want |-> WantOf(Log[k])])>>)
